@@ -75,7 +75,8 @@ theorem eff_baseInv (hb : BaseInv CK b) (hd : DiffInv CK d) : BaseInv CK (effL b
     simp [hd.upsCK k (Or.inl hk), hb.mainCK k hk]
   · intro ck hck
     have hs := kidOf_sorted (effL_wf (d := d) hb.wf) ck
-    apply OMap.sorted_ext hs trivial
+    have hnil : OMap.Sorted ([] : Entries) := trivial
+    apply OMap.sorted_ext hs hnil
     intro k
     rw [eff_kid hb hd, hd.kidsCK ck hck, hb.kidsCK ck hck]
 
